@@ -6,13 +6,16 @@ open MtailVerif MtailVerif.FileStream
 
 /-- Obligations over regenerated facts: the rotation branch flushes the old reader before it
     switches, `Finish` forgets the remainder it has sent, truncation is `size < offset`, rotation
-    is `!SameFile`, a rotated-in file is read from its start, a newly found file from its end. -/
+    is `!SameFile`, a rotated-in file is read from its start, a newly found file from its end;
+    `Finish` sends the remainder by a plain send (no alternative it could take instead), and the
+    exit taken when tailing is stopped calls it. -/
 theorem filestream_shape :
     Generated.FileStream.finishOnRotate = true ∧ Generated.FileStream.finishClears = true ∧
     Generated.FileStream.truncateCond = "newfi.Size() < currentOffset" ∧
     Generated.FileStream.sameFileCond = "!os.SameFile(fi, newfi)" ∧
     Generated.FileStream.streamFromStartInit = "oneShot == OneShotEnabled" ∧
-    Generated.FileStream.rotateFromStart = true := by decide
+    Generated.FileStream.rotateFromStart = true ∧
+    Generated.FileStream.finishSendsAlways = true ∧ Generated.FileStream.finishOnStop = true := by decide
 
 /-- the configuration the current source has -/
 def cfg : Cfg := ⟨Generated.FileStream.finishOnRotate, Generated.FileStream.finishClears⟩
@@ -28,11 +31,21 @@ theorem observed_history_exact (ops : List Op) :
   have h := run_inv cfg filestream_shape.1 filestream_shape.2.1 ops start {} inv_start
   exact h.out
 
+/-- ... and when tailing is then stopped, the fragment of the generation being tailed is delivered
+    too, once, as its own line -/
+theorem stopped_history_exact (ops : List Op) :
+    (stop (run cfg start ops)).delivered = (Spec.stop (Spec.run ops)).out := by
+  have h := run_inv cfg filestream_shape.1 filestream_shape.2.1 ops start {} inv_start
+  exact stop_inv _ _ h
+
 /-- the specification says what the property says, on a concrete history:
     "one\n", "frag", truncate, "two\n", rotate, "x", delete, create, "y\n" -/
 example : (Spec.run [.append [111, 110, 101, 10], .append [102, 114], .truncate, .append [116, 119, 111, 10],
     .rotate, .append [120], .delete, .create, .append [121, 10]]).out =
     [[111, 110, 101], [102, 114], [116, 119, 111], [120], [121]] := by decide
+
+/-- stopping with a fragment pending: "one\n", "fr", stop -/
+example : (Spec.stop (Spec.run [.append [111, 110, 101, 10], .append [102, 114]])).out = [[111, 110, 101], [102, 114]] := by decide
 
 /-- and the pre-repair behaviour really differs: with `Finish` not clearing its buffer the
     fragment is delivered twice, the second time glued to the next line -/
